@@ -403,6 +403,38 @@ func (w *pworld) exec(f []string) string {
 			}
 		}
 		return "ok"
+	case f[0] == "joinlate" && len(f) == 3: // new dc number, 1: a datacenter joins a cluster whose timestamps are ahead of the clock
+		d := f[1]
+		var parts []string
+		// a local allocator ahead of the wall clock, and a global timestamp above it
+		if a, err := am.GetAllocator(w.dcs[0]); err == nil {
+			p, _, _ := tso.VerifView(a)
+			a.SetTSO(tsoutil.ComposeTS(p/1e6+600000, 7))
+		}
+		parts = append(parts, w.request(0, 1).String())
+		// the new datacenter's only "server" is not running: this server leads its allocator too
+		if _, err := w.svr.GetClient().Put(context.Background(), w.svr.GetMember().GetDCLocationPath(uint64(434300+atoi(d))), "dc"+d); err != nil {
+			return "err " + err.Error()
+		}
+		deadline := time.Now().Add(40 * time.Second)
+		for {
+			am.ClusterDCLocationChecker()
+			a, err := am.GetAllocator("dc" + d)
+			if err == nil && a.IsInitialize() {
+				if l, ok := a.(*tso.LocalTSOAllocator); ok && l.IsAllocatorLeader() {
+					break
+				}
+			}
+			if time.Now().After(deadline) {
+				return "err-timeout"
+			}
+			time.Sleep(100 * time.Millisecond)
+		}
+		w.dcs = append(w.dcs, "dc"+d)
+		parts = append(parts, w.request(int(atoi(d)), 1).String())
+		parts = append(parts, w.request(0, 1).String())
+		parts = append(parts, w.request(int(atoi(d)), 1).String())
+		return "grants " + strings.Join(parts, " ")
 	case f[0] == "lrestart":
 		// every local allocator steps down at once (ResetAllocatorGroup) and is re-elected on this server: its
 		// memory is rebuilt from its persisted window and the cluster's largest local timestamp
@@ -550,10 +582,10 @@ func main() {
 			o = fmt.Sprintf("%d", tso.VerifDifferentiate(a, b, c))
 		case "sreset", "dcjoin", "dcleave", "slead", "checker", "gchecker", "sfinish":
 			o = sw.exec(f) + " " + sw.table()
-		case "pinit", "req", "setts", "burst", "bigreq", "lrestart":
+		case "pinit", "req", "setts", "burst", "bigreq", "lrestart", "joinlate":
 			p := getPW()
 			o = p.exec(f)
-			if f[0] != "burst" && f[0] != "bigreq" {
+			if f[0] != "burst" && f[0] != "bigreq" && f[0] != "joinlate" {
 				o += " | " + p.view()
 			} else {
 				o += " | " + suffixTable(p.svr)
@@ -611,6 +643,12 @@ func main() {
 		for s := 0; s < *n; s++ {
 			genProtocol(p, run, r, *maxOps)
 		}
+		// epilogue (monitor only, the model of the exact part has two datacenters): datacenters join late, first
+		// one whose suffix does not widen the suffix field (3), then one that does (4)
+		run("reset")
+		run("pinit")
+		run("joinlate 3 1")
+		run("joinlate 4 1")
 	}
 	_ = os.Stderr
 }
